@@ -2,6 +2,7 @@ import PercevalModel.Proto
 import PercevalModel.Model.C17
 import PercevalModel.Model.C17X
 import PercevalModel.Model.C17R
+import PercevalModel.Model.C17Y
 
 /-
   C17 driver.  Two requests:
@@ -404,10 +405,56 @@ def runKOps (fixed : Bool) (delay : Int) (ops : Array Json) : Except String (Arr
     k := k + 1
   return outs
 
+/-! ### results under the throttle, re-creation under the clock (`Model/C17Y.lean`) -/
+
+def parseYOp (a : Array Json) (k : Nat) : Except String YOp := do
+  let n1 ← (← arg a 0).getInt?
+  let n2 ← (← arg a 1).getInt?
+  let oj ← arg a 2
+  let (t, b) ← tag oj
+  match t with
+  | "reopen" => return .reopen
+  | "G" => return .getResults n1 n2 (← parseResp k (← arg b 1)) (← parseResp k (← arg b 2)) (← parseRBody (← arg b 3))
+  | "g" => throw "the combined machine has its own get_results (G)"
+  | _ => return .base n1 n2 (← parseOp oj k)
+
+def youtStr (s : YJob) (o : ROut) : String :=
+  rresStr o.res ++ "|" ++ idStr s.job.id ++ "|" ++ shown s.job ++ "|" ++ ",".intercalate (o.calls.map callStr)
+
+/-- `{"resume": [id, now, answer]}` (optional, step 1) then `yops` -/
+def runYOps (fixed : Bool) (delay : Int) (j : Json) (ops : Array Json) : Except String (Array String) := do
+  let mut s := yinit
+  let mut outs : Array String := #[]
+  let mut k := 1
+  if let .ok rj := j.getObjVal? "resume" then
+    let a ← rj.getArr?
+    let n ← argNat a 0
+    let now ← (← arg a 1).getInt?
+    let r ← parseResp k (← arg a 2)
+    match resumeAt fixed delay n now r with
+    | (some s', _, c) =>
+      outs := outs.push (s!"new:{n}:{shown s'.job}|" ++ ",".intercalate (c.map callStr))
+      s := s'
+    | (none, some e, c) =>
+      outs := outs.push (s!"exc:{excStr e}|" ++ ",".intercalate (c.map callStr))
+      return outs
+    | (none, none, _) => throw "resumeAt: no object and no exception"
+    k := k + 1
+  for oj in ops do
+    let op ← parseYOp (← oj.getArr?) k
+    let (s', o) := ystep fixed delay s op
+    outs := outs.push (youtStr s' o)
+    s := s'
+    k := k + 1
+  return outs
+
 def handleE (j : Json) : Except String Json := do
   let fixed ← boolOf j "fixed"
   if let .ok rops := arrOf j "rops" then
     let outs ← runROps fixed rops
+    return Json.mkObj [("outs", Json.arr (outs.map Json.str))]
+  if let .ok yops := arrOf j "yops" then
+    let outs ← runYOps fixed (← intOf j "delay") j yops
     return Json.mkObj [("outs", Json.arr (outs.map Json.str))]
   if let .ok kops := arrOf j "kops" then
     let outs ← runKOps fixed (← intOf j "delay") kops
